@@ -7,7 +7,6 @@ import (
 	"os"
 	"os/exec"
 	"path/filepath"
-	"regexp"
 	"strings"
 	"sync"
 	"time"
@@ -102,9 +101,13 @@ func dischargeOne(o *Obligation, opt SolveOpts, wid int) {
 		r, out      string
 		secs        float64
 	}
+	to := opt.Timeout
+	if want == "sat" && to > 2*time.Second {
+		to = 2 * time.Second // vacuity guards: anything but a quick unsat passes
+	}
 	try := func(sd solverDef, model bool) res {
 		q := o.Query(sd.cvc5, model)
-		r, out, secs := runSolver(sd, q, base+"-"+sd.name+".smt2", opt.Timeout)
+		r, out, secs := runSolver(sd, q, base+"-"+sd.name+".smt2", to)
 		return res{sd, r, out, secs}
 	}
 	var all []res
@@ -113,7 +116,7 @@ func dischargeOne(o *Obligation, opt SolveOpts, wid int) {
 	o.Seconds += r0.secs
 	decided := func(r res) bool { return r.r == "unsat" || r.r == "sat" }
 	final := r0
-	if !decided(r0) || (want == "unsat" && r0.r != "unsat" && false) {
+	if !decided(r0) && want == "unsat" {
 		// race the other two
 		var wg sync.WaitGroup
 		rs := make([]res, 2)
@@ -152,7 +155,8 @@ func dischargeOne(o *Obligation, opt SolveOpts, wid int) {
 			if final.r == "sat" {
 				// fetch a model
 				m := try(final.sd, true)
-				o.Model = parseModel(m.out)
+				_, keys := o.modelTerms()
+				o.Model = parseModelValues(m.out, keys)
 				o.Output += truncate(m.out, 4000)
 			}
 		}
@@ -176,17 +180,84 @@ func truncate(s string, n int) string {
 	return s[:n] + "..."
 }
 
-var modelRe = regexp.MustCompile(`\((\|[^|]*\||[^\s()]+)\s+((?:\(- \d+\))|(?:#[xb][0-9a-fA-F]+)|(?:-?\d+)|true|false|\(_ bv\d+ \d+\))\)`)
-
-// parseModel extracts simple (name value) pairs from get-value output.
-func parseModel(out string) map[string]string {
+// parseModelValues parses the (get-value ...) answer: a list of (term value) pairs in request order.
+func parseModelValues(out string, keys []string) map[string]string {
 	m := map[string]string{}
-	for _, mm := range modelRe.FindAllStringSubmatch(out, -1) {
-		v := mm[2]
+	i := strings.Index(out, "((")
+	if i < 0 {
+		return m
+	}
+	s := out[i+1:]
+	idx := 0
+	pos := 0
+	for pos < len(s) && idx < len(keys) {
+		for pos < len(s) && (s[pos] == ' ' || s[pos] == '\n' || s[pos] == '\t' || s[pos] == '\r') {
+			pos++
+		}
+		if pos >= len(s) || s[pos] != '(' {
+			break
+		}
+		end := sexprEnd(s, pos)
+		if end < 0 {
+			break
+		}
+		item := s[pos+1 : end]
+		// item = term value ; the value is the last s-expression
+		item = strings.TrimSpace(item)
+		vstart := lastSexprStart(item)
+		v := strings.TrimSpace(item[vstart:])
 		if strings.HasPrefix(v, "(- ") {
 			v = "-" + strings.TrimSuffix(strings.TrimPrefix(v, "(- "), ")")
 		}
-		m[mm[1]] = v
+		m[keys[idx]] = v
+		idx++
+		pos = end + 1
 	}
 	return m
+}
+
+func sexprEnd(s string, i int) int {
+	d := 0
+	for j := i; j < len(s); j++ {
+		switch s[j] {
+		case '|':
+			k := strings.IndexByte(s[j+1:], '|')
+			if k < 0 {
+				return -1
+			}
+			j += k + 1
+		case '(':
+			d++
+		case ')':
+			d--
+			if d == 0 {
+				return j
+			}
+		}
+	}
+	return -1
+}
+
+func lastSexprStart(s string) int {
+	s = strings.TrimRight(s, " \n\t")
+	if len(s) == 0 {
+		return 0
+	}
+	if s[len(s)-1] == ')' {
+		d := 0
+		for j := len(s) - 1; j >= 0; j-- {
+			switch s[j] {
+			case ')':
+				d++
+			case '(':
+				d--
+				if d == 0 {
+					return j
+				}
+			}
+		}
+		return 0
+	}
+	j := strings.LastIndexAny(s, " \n\t)")
+	return j + 1
 }
